@@ -14,7 +14,7 @@ def _t() -> Dict[str, List[Tuple[str, str, Callable[[Check], object]]]]:
     from . import c01, c02, c03, c04, c05, c07, c09, c11, c13
     from .common import rule_eq, rule_uto_apply
     PE = "skepticoin.datatypes.PowEvidence"
-    from . import c08, c12, c17, c18
+    from . import c08, c12, c17, c18, c20
     MSG = lambda ck: c07.r07_1_2(ck, False, "R07.1")          # noqa  (all codecs, wire messages included)
     CONSENSUS_CODECS = lambda ck: c07.r07_1_2(ck, True, "R07.1")   # noqa
     return {
@@ -52,7 +52,8 @@ def _t() -> Dict[str, List[Tuple[str, str, Callable[[Check], object]]]]:
                 ("R02.3", "overspend check after the existence check (a missing input is a rejection, not an error)", c02.r02_3),
                 ("R03.2", "a fork block is applied to its parent's ledger", c03.r03_2),
                 ("R01.4", "a relayed block's spends carry signatures over the whole transaction (full validity before adoption)", c01.r01_3_4),
-                ("R05.6", "a relayed block's height is its parent's plus one (full validity before adoption)", c05.r05_6)],
+                ("R20.14|R05.6", "a relayed block's height is its parent's plus one: refused by the relay handler itself, or else by the in-state validator",
+                 lambda ck: _either(ck, [c20.r20_14, c05.r05_6]))],
         "C10": [("R13.1", "a relayed transaction is admitted against the state the node serves (the state it synchronised to)", c13.r13_1),
                 ("R13.3", "the chain manager stores every state it is given (side-branch blocks are kept)", c13.r13_3),
                 ("R03.2", "states built during download are built from each block's parent", c03.r03_2),
@@ -85,6 +86,19 @@ def _t() -> Dict[str, List[Tuple[str, str, Callable[[Check], object]]]]:
                 ("R02.4", "amount ranges of delivered transactions", c02.r02_4),
                 ("R17.1", "the commitment comparison is on every path of structural block validation", c17.r17_1)],
     }
+
+
+def _either(ck: Check, rules):   # type: ignore
+    """a premise that two different places of the code can establish: the first rule that holds decides; when none does, the last one reports"""
+    import copy
+    for i, r in enumerate(rules):
+        sub = copy.copy(ck)
+        sub.obligations = []
+        r(sub)
+        bad = [o for o in sub.obligations if o.status != "HOLDS"]
+        if not bad or i == len(rules) - 1:
+            ck.obligations.extend(sub.obligations)
+            return
 
 
 def _rejections(prefixes, what):   # type: ignore
